@@ -26,3 +26,200 @@ def SymmP {α : Type} (d : α) (A : List (List α)) (n : Nat) : Prop :=
   ∀ i j, i < n → j < n → (A.getD i []).getD j d = (A.getD j []).getD i d
 
 end KV.Comm
+
+/-! ## Lemmas (replay of Lemmas/Triu.lean for an arbitrary payload type) -/
+
+namespace KV.Comm
+open KV KV.C14
+
+theorem getTriuAux_eq_P : ∀ (A : List (List Int)) (i : Nat), getTriuAux i A = getTriuAuxP i A
+  | [], _ => rfl
+  | r :: t, i => by simp only [getTriuAux, getTriuAuxP, getTriuAux_eq_P t (i + 1)]
+
+theorem getTriu_eq_P (A : Mat) : getTriu A = getTriuP A := getTriuAux_eq_P A 0
+
+theorem fillTriu_eq_P (n : Nat) (v : List Int) : fillTriu n v = fillTriuP (0 : Int) n v := rfl
+
+section poly
+variable {α : Type}
+
+theorem getD_append_leftP (l l' : List α) (d : α) (i : Nat) (h : i < l.length) :
+    (l ++ l').getD i d = l.getD i d := by
+  simp only [List.getD_eq_getElem?_getD, List.getElem?_append_left h]
+
+theorem getD_append_rightP (l l' : List α) (d : α) (i : Nat) (h : l.length ≤ i) :
+    (l ++ l').getD i d = l'.getD (i - l.length) d := by
+  simp only [List.getD_eq_getElem?_getD, List.getElem?_append_right h]
+
+theorem length_getTriuAuxP (n : Nat) : ∀ (rows : List (List α)) (k : Nat),
+    (∀ r ∈ rows, r.length = n) → k + rows.length ≤ n →
+    (getTriuAuxP k rows).length = off n (k + rows.length) - off n k
+  | [], k, _, _ => by simp [getTriuAuxP]
+  | r :: t, k, hr, hk => by
+    have hlen : r.length = n := hr r (by simp)
+    have ih := length_getTriuAuxP n t (k + 1) (fun r h => hr r (by simp [h]))
+      (by simp at hk; omega)
+    have m1 := off_succ n k
+    have m2 : off n (k + 1) ≤ off n (k + 1 + t.length) := off_mono n (by omega)
+    simp only [getTriuAuxP, List.length_append, List.length_drop, List.length_cons, ih, hlen]
+    rw [show k + (t.length + 1) = k + 1 + t.length by omega]
+    omega
+
+theorem length_getTriuP {A : List (List α)} {n : Nat} (hA : SquareP A n) :
+    (getTriuP A).length = n * (n + 1) / 2 := by
+  have := length_getTriuAuxP n A 0 hA.2 (by rw [hA.1]; omega)
+  rw [getTriuP, this, hA.1, ← off_self]; simp [off]
+
+theorem getD_getTriuAuxP (n : Nat) (d : α) : ∀ (rows : List (List α)) (k i j : Nat),
+    (∀ r ∈ rows, r.length = n) → k + rows.length ≤ n → i < rows.length → k + i ≤ j → j < n →
+    (getTriuAuxP k rows).getD (off n (k + i) - off n k + (j - (k + i))) d
+      = (rows.getD i []).getD j d
+  | [], _, _, _, _, _, hi, _, _ => by simp at hi
+  | r :: t, k, 0, j, hr, hk, _, hij, hj => by
+    have hlen : r.length = n := hr r (by simp)
+    simp only [getTriuAuxP, Nat.add_zero, Nat.sub_self, Nat.zero_add, List.getD_cons_zero]
+    rw [getD_append_leftP _ _ _ _ (by simp [hlen]; omega)]
+    simp only [List.getD_eq_getElem?_getD, List.getElem?_drop]
+    congr 2; omega
+  | r :: t, k, i + 1, j, hr, hk, hi, hij, hj => by
+    have hlen : r.length = n := hr r (by simp)
+    simp only [List.length_cons] at hk hi
+    have ih := getD_getTriuAuxP n d t (k + 1) i j (fun r h => hr r (by simp [h]))
+      (by omega) (by omega) (by omega) hj
+    have m1 := off_succ n k
+    have m2 : off n (k + 1) ≤ off n (k + 1 + i) := off_mono n (by omega)
+    simp only [getTriuAuxP, List.getD_cons_succ]
+    rw [getD_append_rightP _ _ _ _ (by
+      simp only [List.length_drop, hlen]
+      rw [show k + (i + 1) = k + 1 + i by omega]; omega)]
+    rw [← ih]
+    congr 1
+    simp only [List.length_drop, hlen]
+    rw [show k + (i + 1) = k + 1 + i by omega]; omega
+
+theorem getD_getTriuP (d : α) {A : List (List α)} {n i j : Nat} (hA : SquareP A n)
+    (hij : i ≤ j) (hj : j < n) :
+    (getTriuP A).getD (triuPos n i j) d = (A.getD i []).getD j d := by
+  have := getD_getTriuAuxP n d A 0 i j hA.2 (by rw [hA.1]; omega) (by rw [hA.1]; omega)
+    (by omega) hj
+  rw [triuPos_eq n i j (by omega), getTriuP, ← this]
+  simp [off]
+
+theorem length_fillTriuP (d : α) (n : Nat) (v : List α) : (fillTriuP d n v).length = n := by
+  simp [fillTriuP]
+
+theorem square_fillTriuP (d : α) (n : Nat) (v : List α) : SquareP (fillTriuP d n v) n := by
+  refine ⟨length_fillTriuP d n v, ?_⟩
+  intro r hr
+  simp only [fillTriuP, List.mem_map] at hr
+  obtain ⟨i, _, rfl⟩ := hr
+  simp
+
+theorem get_fillTriuP (d : α) (n : Nat) (v : List α) {i j : Nat} (hi : i < n) (hj : j < n) :
+    ((fillTriuP d n v).getD i []).getD j d =
+      if i ≤ j then v.getD (triuPos n i j) d else v.getD (triuPos n j i) d := by
+  simp [fillTriuP, List.getD_eq_getElem?_getD, hi, hj]
+
+theorem symm_fillTriuP (d : α) (n : Nat) (v : List α) : SymmP d (fillTriuP d n v) n := by
+  intro i j hi hj
+  rw [get_fillTriuP d n v hi hj, get_fillTriuP d n v hj hi]
+  by_cases h1 : i ≤ j <;> by_cases h2 : j ≤ i <;> simp [h1, h2]
+  · have : i = j := by omega
+    subst this; rfl
+  · omega
+
+theorem getD_eq_getElemP (d : α) {A : List (List α)} {n i j : Nat} (hA : SquareP A n)
+    (hi : i < n) (hj : j < n) :
+    (A.getD i []).getD j d = (A[i]'(by rw [hA.1]; exact hi))[j]'(by
+      rw [hA.2 _ (List.getElem_mem _)]; exact hj) := by
+  have h1 : i < A.length := by rw [hA.1]; exact hi
+  have h2 : j < (A[i]).length := by rw [hA.2 _ (List.getElem_mem _)]; exact hj
+  simp [List.getD_eq_getElem?_getD, h1, h2]
+
+theorem fill_getP (d : α) {A : List (List α)} {n : Nat} (hA : SquareP A n) (hS : SymmP d A n) :
+    fillTriuP d n (getTriuP A) = A := by
+  apply List.ext_getElem
+  · rw [length_fillTriuP, hA.1]
+  · intro i h1 h2
+    have hi : i < n := by rw [length_fillTriuP] at h1; exact h1
+    have hrow : (A[i]).length = n := hA.2 _ (List.getElem_mem _)
+    apply List.ext_getElem
+    · rw [(square_fillTriuP d n _).2 _ (List.getElem_mem _), hrow]
+    · intro j h3 h4
+      have hj : j < n := by rw [hrow] at h4; exact h4
+      rw [← getD_eq_getElemP d (square_fillTriuP d n _) hi hj, ← getD_eq_getElemP d hA hi hj,
+        get_fillTriuP d n _ hi hj]
+      by_cases hij : i ≤ j
+      · rw [if_pos hij, getD_getTriuP d hA hij hj]
+      · rw [if_neg hij, getD_getTriuP d hA (by omega) hi, hS i j hi hj]
+
+theorem fill_row_dropP (d : α) (n : Nat) (v : List α) (k : Nat) (hk : k < n)
+    (hv : off n n ≤ v.length) :
+    (((List.range n).map fun j =>
+        if k ≤ j then v.getD (triuPos n k j) d else v.getD (triuPos n j k) d).drop k)
+      = (v.drop (off n k)).take (n - k) := by
+  have m1 := off_succ n k
+  have m2 : off n (k + 1) ≤ off n n := off_mono n (by omega)
+  apply List.ext_getElem
+  · simp only [List.length_drop, List.length_map, List.length_range, List.length_take]
+    omega
+  · intro t h1 h2
+    simp only [List.length_drop, List.length_map, List.length_range] at h1
+    simp only [List.getElem_drop, List.getElem_map, List.getElem_range, List.getElem_take]
+    rw [if_pos (by omega), triuPos_eq n k _ (by omega), List.getD_eq_getElem?_getD,
+      List.getElem?_eq_getElem (by omega)]
+    simp only [Option.getD_some]
+    congr 1; omega
+
+theorem getTriuAuxP_fill (d : α) (n : Nat) (v : List α) (hv : v.length = off n n) :
+    ∀ (m k : Nat), k + m = n →
+    getTriuAuxP k ((List.range' k m).map fun i => (List.range n).map fun j =>
+        if i ≤ j then v.getD (triuPos n i j) d else v.getD (triuPos n j i) d)
+      = v.drop (off n k)
+  | 0, k, h => by
+    have : k = n := by omega
+    subst this
+    simp [getTriuAuxP, List.drop_eq_nil_iff, hv]
+  | m + 1, k, h => by
+    have ih := getTriuAuxP_fill d n v hv m (k + 1) (by omega)
+    simp only [List.range'_succ, List.map_cons, getTriuAuxP]
+    rw [ih, fill_row_dropP d n v k (by omega) (by omega), off_succ,
+      ← List.drop_drop, List.take_append_drop]
+
+theorem get_fillP (d : α) {n : Nat} {v : List α} (hv : v.length = n * (n + 1) / 2) :
+    getTriuP (fillTriuP d n v) = v := by
+  have := getTriuAuxP_fill d n v (by rw [hv, off_self]) n 0 (by omega)
+  rw [List.range_eq_range'] at this
+  rw [getTriuP, fillTriuP, List.range_eq_range', this]
+  simp [off]
+
+/-! ### naturality in the payload -/
+
+theorem getTriuAuxP_map {β : Type} (f : α → β) : ∀ (A : List (List α)) (i : Nat),
+    getTriuAuxP i (A.map (List.map f)) = (getTriuAuxP i A).map f
+  | [], _ => rfl
+  | r :: t, i => by
+    simp only [List.map_cons, getTriuAuxP, List.map_append, List.map_drop,
+      getTriuAuxP_map f t (i + 1)]
+
+theorem getTriuP_map {β : Type} (f : α → β) (A : List (List α)) :
+    getTriuP (A.map (List.map f)) = (getTriuP A).map f := getTriuAuxP_map f A 0
+
+theorem getD_map_default {β : Type} (f : α → β) (v : List α) (k : Nat) (d : α) :
+    (v.map f).getD k (f d) = f (v.getD k d) := by
+  simp only [List.getD_eq_getElem?_getD, List.getElem?_map]
+  cases v[k]? <;> rfl
+
+theorem fillTriuP_map {β : Type} (f : α → β) (d : α) (n : Nat) (v : List α) :
+    fillTriuP (f d) n (v.map f) = (fillTriuP d n v).map (List.map f) := by
+  simp only [fillTriuP, List.map_map]
+  apply List.map_congr_left
+  intro i _
+  simp only [Function.comp, List.map_map]
+  apply List.map_congr_left
+  intro j _
+  simp only [Function.comp, getD_map_default]
+  split <;> rfl
+
+end poly
+end KV.Comm
